@@ -27,8 +27,9 @@ EXTENDS Multipart, Json, IOUtils
 
 Traces == JsonDeserialize(IOEnv.TRACE_FILE)
 
-VARIABLES tid, l, verdict, dnote
-jvars == <<vars, tid, l, verdict, dnote>>
+VARIABLES tid, l, verdict, dnote,
+          everr      \* some call so far had to raise the parse error (the application re-raises the first one)
+jvars == <<vars, tid, l, verdict, dnote, everr>>
 
 T  == Traces[tid]
 Ev == T.ev[l]
@@ -36,7 +37,7 @@ Ev == T.ev[l]
 NoLimits(f, e) == {}
 
 JInit ==
-    /\ tid \in 1..Len(Traces) /\ l = 1 /\ verdict = "ok" /\ dnote = 0
+    /\ tid \in 1..Len(Traces) /\ l = 1 /\ verdict = "ok" /\ dnote = 0 /\ everr = FALSE
     /\ form = Traces[tid].form /\ env = Traces[tid].env /\ lim = Traces[tid].lim /\ body = Traces[tid].body
     /\ edited = ~Traces[tid].valid
     /\ st = "iter" /\ pos = 0 /\ pro = TRUE /\ yielded = 0 /\ cur = <<>>
@@ -86,7 +87,6 @@ JudgeRead(x, e) ==
     ELSE IF x.out = "ok" /\ x.res # e.res THEN "P:content"
     ELSE "ok"
 
-Failed == st = "error" \/ dead
 
 Applicable(e) ==
     CASE e.op = "next"       -> st \in {"iter", "part"}
@@ -124,14 +124,15 @@ Step ==
            \/ /\ e.op = "get_media" /\ GetMedia
               /\ verdict' = JudgeRead(last', e) /\ dnote' = dnote
            \/ /\ e.op = "status" /\ Keep
-              /\ verdict' = (IF e.code = (IF Failed THEN 400 ELSE 200) THEN "ok" ELSE "P:status") /\ dnote' = dnote )
+              /\ verdict' = (IF e.code = (IF everr THEN 400 ELSE 200) THEN "ok" ELSE "P:status") /\ dnote' = dnote )
+    /\ everr' = (everr \/ (last' # last /\ last'.out = "error"))
     /\ l' = l + 1 /\ UNCHANGED tid
 
 Done ==
     /\ l >= 1 /\ (l > Len(T.ev) \/ verdict # "ok")
     /\ PrintT(<<"VERDICT", tid, IF verdict = "ok" /\ dnote > 0 THEN "D:why" ELSE verdict,
                 IF verdict = "ok" /\ dnote > 0 THEN dnote ELSE l - 1>>)
-    /\ l' = -1 /\ UNCHANGED <<vars, tid, verdict, dnote>>
+    /\ l' = -1 /\ UNCHANGED <<vars, tid, verdict, dnote, everr>>
 
 JNext == Step \/ Done
 JSpec == JInit /\ [][JNext]_jvars
